@@ -51,6 +51,7 @@ def _world(r):
         names = {}
         for nm in r.sample(['a', 'b', 'c', 'x', 'y'], r.randint(1, 4)):
             names[nm] = gen.host_value_spec(r, 2, floats=False)
+        names['sep'] = [' ', ','][len(spaces)]       # the two mappings disagree on a value the same source reads
         spaces.append(names)
     return {'cache': cache, 'prewarm': kind == 'prewarmed', 'spaces': spaces}
 
@@ -88,6 +89,16 @@ def generate(seed, tier):
         d = rc.randint(150, 320)
         pool.append(rc.choice(['- ' * d + '1', 'x = ' + '[' * d + ']' * d + '\nlen(x)', 'not ' * d + 'True',
                                '1' + ' + 1' * d, '0' + ' if False else 0' * min(d, 200)]))
+    if rc.random() < 0.35:
+        # different programs whose texts a sloppy key normalisation would take for the same text
+        fam = rc.choice([
+            ['d = {"a b": 1, "a  b": 2}\nd["a b"]', 'd = {"a b": 1, "a  b": 2}\nd["a  b"]'],
+            ['["#red", "#green"] | join(",")', '["#cyan"] | join(",")', '["#red"] | len'],
+            ['"x  y" + "z"', '"x y" + "z"', '"x\ty" + "z"'],
+            ['1234567 | pretty(sep)', '1234567 | pretty(sep)', '7654321.5 | pretty(sep)'],
+            ['x = "a # b"\nlen(x)', 'x = "a # c"\nlen(x)'],
+        ])
+        pool.extend(fam)
     world['prewarm_sources'] = [s for s in pool if rc.random() < 0.5] if world['prewarm'] else []
     ops = []
     weights = [1.0 / (i + 1) for i in range(len(pool))]
@@ -110,6 +121,21 @@ def generate(seed, tier):
                 src = pre + src + post
         ops.append({'op': k, 'src': src, 'pool': i, 'near': near, 'space': ro.randrange(2), 'entropy': ro.randrange(2 ** 32)})
     return {'world': world, 'ops': ops, 'pool': pool}
+
+
+def tree_snapshot(t, depth=0):
+    """Structural snapshot of a syntax tree: node classes, every field, and the instance attributes of literal values
+    (a Decimal subclass instance can carry attributes that repr() does not show)."""
+    if depth > 400:
+        return '...'
+    if isinstance(t, (list, tuple)):
+        return [tree_snapshot(x, depth + 1) for x in t]
+    d = getattr(t, '__dict__', None)
+    if isinstance(d, dict) and not callable(t):
+        if hasattr(t, 'eval'):
+            return [type(t).__name__] + [[k, tree_snapshot(v, depth + 1)] for k, v in sorted(d.items())]
+        return [repr(t), sorted((k, repr(v)) for k, v in d.items())]
+    return repr(t)
 
 
 class Side:
@@ -162,7 +188,7 @@ def execute(case, ctx):
     snapshots = {}      # id(tree) -> (key, tree, repr at store time)
 
     def on_store(k, tree):
-        snapshots[id(tree)] = (k, tree, repr(tree))
+        snapshots[id(tree)] = (k, tree, tree_snapshot(tree))
     A.cache.on_store = on_store
     if cfg.get('prewarm_sources'):
         other = boot.fresh_parser()
@@ -242,10 +268,10 @@ def execute(case, ctx):
                 ctx.report('failure_cached', '%s: a source that does not parse is present in the cache' % what, {'kind': 'failure_cached'})
         # cached trees are never altered, and never lie
         for tid, (k, tree, rep) in list(snapshots.items()):
-            now = repr(tree)
+            now = tree_snapshot(tree)
             ctx.stats['snapshots_compared'] += 1
             if now != rep:
-                ctx.report('cached_tree_altered', '%s: the tree cached for %r changed: %s -> %s' % (what, k[:80], rep[:200], now[:200]),
+                ctx.report('cached_tree_altered', '%s: the tree cached for %r changed: %s -> %s' % (what, k[:80], str(rep)[:200], str(now)[:200]),
                            {'kind': 'cached_tree_altered'})
         ctx.probe('cached_tree_snapshot_checked')
         for k, tree in list(A.cache.d.items()):
